@@ -1713,6 +1713,16 @@ class Interp(object):
                 return self.call_local(clo.path, args, st)
             h = self.summaries.get(clo.path) or self.summary_by_prefix(clo.path)
             if h is None:
+                # a tuple-variant / tuple-struct constructor used as a function (`.map(Action::Place)`)
+                parent, _, last = clo.path.rpartition('::')
+                ti = self.types.get(parent)
+                if ti and ti.get('k') == 'adt':
+                    for k_, v_ in enumerate(ti['variants']):
+                        if v_['name'] == last and len(v_['fields']) == len(args):
+                            return (Enum(parent, k_, tuple(args)) if ti.get('enum') else Struct(parent, tuple(args))), st
+                ti = self.types.get(clo.path)
+                if ti and ti.get('k') == 'adt' and not ti.get('enum') and len(ti['variants'][0]['fields']) == len(args):
+                    return Struct(clo.path, tuple(args)), st
                 return Top('unknown fn item ' + clo.path), st
             return h(self, st, None, {'res': {'path': clo.path}, 'a': [], 'at': None, 't': 0}, args)
         if isinstance(clo, Struct) and clo.ty.startswith('closure:'):
